@@ -85,6 +85,15 @@ top:
 
 // AppendSnapshot appends a snapshot to a []byte.
 func AppendSnapshot(b []byte, s *slip.Scope) []byte {
+	// The text must read back to the same objects whatever printer variables
+	// the caller has bound (*print-base*, *print-length*, *print-escape*,
+	// ...), only the right margin is taken from the caller.
+	ps := slip.NewScope()
+	if margin, has := s.LocalGet(slip.Symbol("*print-right-margin*")); has {
+		ps.Let(slip.Symbol("*print-right-margin*"), margin)
+	}
+	s = ps
+
 	b = append(b, ";;;; Snapshot taken at "...)
 	b = time.Now().AppendFormat(b, time.RFC3339)
 	if usr, _ := user.Current(); usr != nil && 0 < len(usr.Username) {
